@@ -12,11 +12,11 @@ of the semi-major-axis sequence.
 A second, cheap space decides the ``EllipseGeometry.to_polar`` twin
 (scalar / vectorised) on ALL integer points of a 9x9 window x 24 geometries.
 
-Sizes / measured cost (user+sys): quick 316 lattice points (220 + 64 'start' / 'growth-via-geometry'
+Sizes / measured cost (user+sys): quick 344 lattice points = 28 of the block 'dtype' (see below; + 24 float64 twins, 75 CPU-s) + 316 lattice points (220 + 64 'start' / 'growth-via-geometry'
 on the 81x101 frame, 7 of them not run: inadmissible start; + 32 of the block 'area' on the 131x151
 frame, 2.4 CPU-s each) + 7 776 to_polar calls, ~6.1 CPU-min (measured 5m58 ... 6m14 user+sys at --nproc 4 on a loaded
 machine; the 57 new fits: 56 CPU-s in-process);
-thorough 3 392 lattice points (2 416 + 384 'start' + 256 'growth-via-geometry' + 336 'area') + the
+thorough 3 632 lattice points (240 'dtype' + 224 twins, ~20 CPU-min estimated from the quick block, + 3 392: 2 416 + 384 'start' + 256 'growth-via-geometry' + 336 'area') + the
 same to_polar space, ~84 CPU-min (the 588 fits of the two new blocks measured: 13.8 CPU-min; 1.35 CPU-s per small-frame fit, extrapolated from a 41-unit spread
 and the 1 764-fit calibration run = 2 494 CPU-s; the 336 'area' fits measured: 13 CPU-min).
 
@@ -32,6 +32,14 @@ below sma ~ 26, so on the small frame the area integrators' own pixel scan is
 almost never the source of a judged sample.  ``area_integrated`` (input-only rule)
 names the isophotes where it is, and they have their own calibrated tolerance.
 
+The block 'dtype' enumerates HOW THE IMAGE IS STORED: dtype {f8, f4, >f8, i2, u2, u1, i4 (+ >i2 thorough)} x integrmode
+{bilinear, nearest_neighbor, mean, median} (the only block with nearest_neighbor) on the bright galaxy of the large
+frame.  Integer images hold the galaxy in whole counts with the peak at 0.9 of the dtype's range, so that the sector
+sums of the judged isophotes exceed what the dtype holds (input-only rule sector_sum_beyond_dtype).  Every fit is judged
+against the truth like any other and, unless float64, against the fit of the SAME stored values as a native float64
+array (clause representation).  Quick 28 lattice points (+ 24 float64 twins), measured 75 CPU-s at --nproc 4;
+thorough 240 (+ 224 twins; 16 of the 256 are points of the block 'area').
+
 Oracle clauses (violation keys are ``clause|site``):
   raises, empty-list      fit_image must return isophotes for a start inside the basin
   sorted                  strictly increasing sma
@@ -46,6 +54,9 @@ Oracle clauses (violation keys are ``clause|site``):
                           input-only rule, no stop code) within max(3 x reported error, 10 x calibrated deviation);
                           sites <parameter>:<bil | area | area-integrated> (class of the isophote, input-only rule)
   model, model-raises     build_ellipse_model inside the annulus spanned by the well-sampled isophotes
+  representation          image of dtype D vs the same stored values as float64: same sma list, centre / eps / PA / intensity
+                          equal (1e-9 relative for integer and byte-swapped pixels -- bit-identical on the pinned tree --,
+                          1e-5 or 3 x reported error for float32 pixels); sites <integrmode>:<integer | float32 | big-endian>[:sma-list | :raises]
   image-modified          image digest before / after
   to_polar-scalar-vs-array, to_polar-reference, to_polar-raises
 """
@@ -75,7 +86,13 @@ RULE = ('union of full Cartesian products (blocks) over {eps, PA, centre fractio
         'EllipseGeometry(linear_growth=) with linear=None; a lattice point whose start sma (sma0 if given, else '
         'geometry.sma) is not strictly between minsma and maxsma, below 4 px or with its annuli not inside the frame violates the documented precondition '
         'of sma0 and is counted as skipped, not run; on every fit the returned sma list must be one growth sequence through '
-        'the start (clauses sma-start, sma-growth), whatever the geometry.sma; to_polar: all 81 integer '
+        'the start (clauses sma-start, sma-growth), whatever the geometry.sma; the block "dtype" is the product image '
+        'dtype {f8, f4, >f8, i2, u2, u1, i4; thorough also >i2 and x eps {0.2, 0.5} x PA {30, 120} x centre {generic, pixel centre}} '
+        'x integrmode {bilinear, nearest_neighbor, mean, median} on the large frame (exponential law x 2.5; quick sma 25-40, '
+        'thorough 25-50): integer images hold the galaxy in whole counts with the peak at 0.9 of the largest value of the '
+        'dtype, each fit is judged against the truth and (dtype other than f8) against the fit of the same stored values as '
+        'native float64 (clause representation); an integer-image fit with integrmode mean / median is non-trivial only when '
+        'an area-integrated isophote was judged whose 7-pixel sector sum exceeds the range of the dtype (input-only); to_polar: all 81 integer '
         'points of a 9x9 window x 24 geometries x 4 call forms, non-trivial when the point is not the centre')
 ASSUMPTIONS = ['the analytic renderer below (pixel-centre sampling of I(r_ell)) defines the truth; numpy trig is trusted',
                'scipy.optimize.leastsq / LSQUnivariateSpline are trusted (used inside photutils)',
@@ -91,6 +108,13 @@ ASSUMPTIONS = ['the analytic renderer below (pixel-centre sampling of I(r_ell)) 
                'every EllipseGeometry of the lattice keeps the default astep = 0.1 (annulus 0.1 sma wide; 0.1 px with linear '
                'growth, so linear-growth fits never reach the sector scan of the area integrators); geometries built with '
                'their own astep are not enumerated (linear_growth: block growth-via-geometry, same astep)',
+               'image dtypes are enumerated only in the block dtype (large frame, sma0 30, exponential law x 2.5, free fit, '
+               'geometric step 0.1); every other block uses float64 C-ordered arrays; Fortran-ordered / strided / masked '
+               'images, int64 / uint32 / float16 and integer galaxies fainter than 0.08 of the dtype range are not enumerated',
+               'integrmode nearest_neighbor is enumerated only in the block dtype; its tolerances are calibrated on the tree '
+               'with proposed_fixes/C20-nearest-neighbor-floor.diff applied (the pinned integrator reads the floor pixel: '
+               'centre bias +0.5 px, reported as accuracy|x0:nn / y0:nn), centre margin 4 instead of 10 (see MARGIN_NN_CENTRE); '
+               'build_ellipse_model is judged for float64 images and integrmode bilinear / mean / median only',
                'at eps 0.8 fewer than half of the sectors of any isophote up to sma 50 hold > 6 pixels: no isophote of '
                'the lattice is classified area-integrated there (they are judged in the general area class)']
 
@@ -139,10 +163,22 @@ GEOMSMA = [10.0, 18.0,      # 18 = 10 + 8 x 1 = 10 + 4 x 2 = 14 + 4 x 1 = 14 + 2
 GROWTH_START = ['geom0.2', 'lin2.0', 'geom0.1', 'lin1.0']
 RANGE_PRODUCT = ['5-30', 'default', '0-30', '5-none']     # {minsma 5, 0} x {maxsma 30, None}; 'default' = 0-none
 GROWVIA = ['kwargs', 'geometry']     # fit_image(linear=...), or EllipseGeometry(linear_growth=...) with linear not passed
+# -- how the image is stored: dtype x integration mode (block 'dtype') -----------------------------------------------
+# The integrators read single pixels (numpy scalars of the image's dtype) and do Python arithmetic with them, so the
+# image dtype is a code path of its own in every integration mode (NumPy >= 2: a Python number is "weak", the scalar's
+# dtype wins: float32 pixels are interpolated / summed in float32, and a sum started from an int 0 would stay in a
+# narrow integer type and wrap).  Integer images hold the galaxy in whole counts, scaled so that its peak is
+# COUNT_FILL of the largest value of the dtype ("counts fit the dtype"): the fitted sectors (>= 7 px) then sum to more
+# than the dtype holds, as on any well-exposed raw frame.  '>i2' is what a FITS BITPIX 16 file delivers.
+DTYPE = ['f8', 'f4', '>f8', 'i2', 'u2', 'u1', 'i4', '>i2']
+INT_MAX = {'i2': 32767, '>i2': 32767, 'u2': 65535, 'u1': 255, 'i4': 2 ** 31 - 1}
+COUNT_FILL = 0.9
+MODE_ALL = ['bilinear', 'nearest_neighbor', 'mean', 'median']
+RANGE_LARGE_SHORT = '25-40'          # frame 'large': sma 27.3, 30, 33, 36.3, 39.9 (the first five of RANGE_LARGE; quick tier)
 
 DEFAULT = {'eps': 0.5, 'pa_deg': 30, 'cen': 'frac', 'law': 'exp', 'init': 'shape', 'growth': 'geom0.1',
            'mode': 'bilinear', 'fix': 'none', 'range': '5-30', 'fixvia': 'kwargs',
-           'size': 1.0, 'frame': 'std', 'sma0': None, 'geomsma': None, 'growvia': 'kwargs'}
+           'size': 1.0, 'frame': 'std', 'sma0': None, 'geomsma': None, 'growvia': 'kwargs', 'dtype': 'f8'}
 
 # each block: the axes that are varied (full product); every other axis takes DEFAULT or the block's override
 BLOCKS = {
@@ -161,6 +197,9 @@ BLOCKS = {
         # growth mode taken from the geometry (fit_image's linear left at None) x start given either way
         ('growth-via-geometry', {'growth': GROWTH_START, 'sma0': [None, 14.0], 'range': RANGE_PRODUCT[:2]},
          {'growvia': 'geometry'}),
+        # image dtype x integration mode (all four documented modes) on the bright galaxy of the large frame
+        ('dtype', {'mode': MODE_ALL, 'dtype': DTYPE[:7]},
+         {'frame': 'large', 'range': RANGE_LARGE_SHORT, 'eps': 0.2, 'size': 2.5}),
     ],
     'thorough': [
         ('geometry', {'eps': EPS, 'pa_deg': PA_DEG, 'cen': CEN, 'law': LAW, 'init': ['truth', 'shape', 'centre']},
@@ -177,6 +216,8 @@ BLOCKS = {
         ('start', {'sma0': SMA0, 'geomsma': GEOMSMA, 'growth': GROWTH_START, 'range': RANGE_PRODUCT}, {}),
         ('growth-via-geometry', {'growth': GROWTH_START, 'sma0': SMA0, 'geomsma': GEOMSMA[:4], 'range': RANGE_PRODUCT},
          {'growvia': 'geometry'}),
+        ('dtype', {'mode': MODE_ALL, 'dtype': DTYPE, 'eps': [0.2, 0.5], 'pa_deg': [30, 120], 'cen': ['frac', 'int']},
+         {'frame': 'large', 'range': RANGE_LARGE, 'size': 2.5}),
     ],
 }
 
@@ -225,8 +266,17 @@ def truth_geometry(case, seed):
     g = generic(seed)
     fx, fy = g['frac'] if case['cen'] == 'frac' else (0.0, 0.0)
     cx, cy = frame_of(case)['centre0']
+    dt = case.get('dtype', 'f8')
+    # integer images: peak = COUNT_FILL of the dtype's range (input-only; the seed's amplitude would not fit 8 / 16 bits)
+    amp = COUNT_FILL * INT_MAX[dt] if dt in INT_MAX else g['amp']
     return {'x0': cx + fx, 'y0': cy + fy, 'eps': float(case['eps']),
-            'pa': math.radians(case['pa_deg']), 'amp': g['amp']}
+            'pa': math.radians(case['pa_deg']), 'amp': amp}
+
+
+def dtype_kind(case):
+    """Named predicate on the case: representation class of the image (replay files written before the axis: float64)."""
+    dt = case.get('dtype', 'f8')
+    return 'float64' if dt == 'f8' else 'integer' if dt in INT_MAX else 'float32' if dt == 'f4' else 'big-endian'
 
 
 def rell(x, y, t):
@@ -243,9 +293,24 @@ def ell_radius(shape, t):
     return rell(xx, yy, t)
 
 
-def make_image(case, seed):
+def make_image(case, seed, as_float64=False):
+    """-> (image in the case's dtype, truth).  Integer dtypes store the galaxy rounded to whole counts, float32 the
+    galaxy rounded to float32, '>f8' the float64 values byte-swapped.  as_float64: the SAME stored values as a native
+    float64 array (exact: every value of these dtypes is a float64), the reference of the clause 'representation'."""
     t = truth_geometry(case, seed)
-    return t['amp'] * radial(case['law'], ell_radius(frame_of(case)['shape'], t), case['size']), t
+    vals = t['amp'] * radial(case['law'], ell_radius(frame_of(case)['shape'], t), case['size'])
+    dt = case.get('dtype', 'f8')
+    if dt == 'f8':
+        return vals, t
+    if dt in INT_MAX:
+        vals = np.rint(vals)
+        if not (vals.min() >= 0 and vals.max() <= INT_MAX[dt]):
+            raise AssertionError('harness: counts do not fit the dtype')
+    img = vals.astype(np.dtype(dt))
+    back = img.astype(np.float64)
+    if dt in INT_MAX and not np.array_equal(back, vals):
+        raise AssertionError('harness: integer image does not hold the rounded counts')
+    return (back if as_float64 else img), t
 
 
 def initial_geometry(case, t):
@@ -334,13 +399,13 @@ def fix_flags(case):
 # --------------------------------------------------------------------------
 # running one fit and measuring
 # --------------------------------------------------------------------------
-def evaluate(case, seed, with_model=True):
+def evaluate(case, seed, with_model=True, as_float64=False):
     """Run the real code once; return plain measurements (no judgement)."""
     import warnings
     from astropy import log
     from photutils.isophote import Ellipse, EllipseGeometry, build_ellipse_model
     log.setLevel('ERROR')
-    img, t = make_image(case, seed)
+    img, t = make_image(case, seed, as_float64=as_float64)
     before = digest(img)
     g0 = initial_geometry(case, t)
     kw = fit_kwargs(case)
@@ -564,7 +629,20 @@ CAL = {
     (0.5, 'area'): (1.5e-1, 9.1e-3, 5.8e-3, 3.5e-2),
     (0.8, 'bil'): (6.8e-2, 1.1e-2, 6.7e-3, 7.0e-2),
     (0.8, 'area'): (1.6e-1, 7.8e-3, 3.9e-3, 4.3e-2),
+    # integrmode 'nearest_neighbor' (block 'dtype' only: large frame, sma 27.3 ... 48.3, exponential law x 2.5).  The
+    # pinned tree cannot calibrate this class: its integrator takes the pixel int(x), int(y) -- the floor, not the
+    # nearest pixel -- so every sample is displaced by (-0.5, -0.5) px on average and every fitted centre is off by
+    # +0.5 px in x and y (measured 0.50 ... 0.56 px; proposed_fixes/C20-nearest-neighbor-floor.diff).  Calibrated on
+    # the tree with that repair: 48 fits per eps (PA 30 / 120, centre frac / int, init shape / centre, seeds 0, 1, 2):
+    (0.2, 'nn'): (8.1e-2, 2.5e-3, 1.5e-2, 4.5e-3),
+    (0.5, 'nn'): (1.1e-1, 2.7e-3, 5.4e-3, 8.7e-3),
 }
+# Centre of the nearest_neighbor class: margin 4, not 10.  A nearest-pixel sample is the image value at a point within
+# half a pixel of the sampling position, so half a pixel is the resolution of the method itself; a centre tolerance of
+# 10 x 0.08 ... 0.11 = 0.8 ... 1.1 px would accept a whole-pixel shift.  4 x the calibrated maximum (0.32 / 0.44 px) stays
+# below that resolution and 4 x above everything the repaired tree produces over the 96 calibration fits (three seeds);
+# the deviations are pixel-sampling scatter of ~200 samples per isophote (largest deviation / reported error: 2.4).
+MARGIN_NN_CENTRE = 4.0
 # These deviations are the discretisation error of sampling a pixel-centre rendered galaxy by bilinear
 # interpolation (curvature of I across one pixel: it grows with 1/(r0 (1-eps)) and is largest for the cuspy
 # Sersic law), not noise; the errors photutils reports are of the same order.  Absolute tolerance = 10 x the
@@ -574,9 +652,26 @@ CAL = {
 MARGIN = 10.0
 TOL = {}
 for (_e, _c), _v in CAL.items():
-    _w = _v if _c == 'bil' else tuple(max(a, b) for a, b in zip(_v, CAL[(_e, 'bil')]))
-    TOL[(_e, _c)] = {'x0': MARGIN * _w[0], 'y0': MARGIN * _w[0], 'eps': MARGIN * _w[1], 'pa': MARGIN * _w[2],
+    _w = _v if _c in ('bil', 'nn') else tuple(max(a, b) for a, b in zip(_v, CAL[(_e, 'bil')]))
+    _mc = MARGIN_NN_CENTRE if _c == 'nn' else MARGIN
+    TOL[(_e, _c)] = {'x0': _mc * _w[0], 'y0': _mc * _w[0], 'eps': MARGIN * _w[1], 'pa': MARGIN * _w[2],
                      'intens': MARGIN * _w[3]}
+# INTEGER / float32 images hold the galaxy rounded to whole counts / to float32: the stored image differs from the
+# analytic one by <= 0.5 count.  With the peak at 0.9 of the dtype's range and the faintest judged isophote (sma 48.3,
+# 2.4 scale lengths) at 0.082 of the peak that is <= 2.7 % of a pixel for uint8 and <= 2.1e-4 for the 16 / 32 bit types.
+# Measured on the pinned tree (block 'dtype', eps 0.2): the truth deviations of uint8 fits are <= 0.04 px (bilinear
+# centre; float64: 0.0005), 0.044 px (mean), 0.072 px (median) -- all below the float64 calibration maxima above, so
+# the same tolerances apply to every dtype (the 3 x reported error part of the bound grows with the rounding scatter).
+# Clause 'representation' (the stored numbers, not their dtype, determine the result): the fit of the image in dtype D
+# against the fit of the same stored values as native float64.  Integer and byte-swapped pixels: every arithmetic step
+# of a correct integrator happens in float64 on the same numbers -> the pinned tree is bit-identical (all enumerated
+# cases); 1e-9 leaves room for a re-ordered sum.  float32 pixels are interpolated / summed in float32 by numpy's
+# scalar rules (7 ... 30 pixels per sector: relative error <= 30 x 6e-8 = 2e-6 per sample); the fit maps that to at most
+# 5.6e-7 (relative; pa) on the pinned tree when both fits keep the same iterate; 1e-5 = 5 x the per-sample bound.
+# When the perturbation makes the fitter keep another of its (equally good) last iterates -- 2 of the 32 thorough float32
+# fits, mean, pixel-centred galaxy, eps 0.2: pa differs by up to 1.2e-3 rad = 0.45 x its reported error, centre by 0.01 px
+# = 0.38 x -- the two answers are two converged solutions: accepted within 3 x the reported error of the float64 twin.
+REPR_RTOL = {'integer': 1e-9, 'big-endian': 1e-9, 'float32': 1e-5}
 # AREA-INTEGRATED isophotes (area_integrated(): integrmode mean / median and at least half of the sectors hold >= 8
 # pixels, i.e. the sample really comes from the sector scan of the area integrators, not from their bilinear
 # fallback) are calibrated separately, per ellipticity x integrmode x centre class, on the complete thorough block
@@ -631,7 +726,51 @@ FIXED_PA_ATOL = 1e-12
 
 
 def integr_class(case):
-    return 'bil' if case['mode'] == 'bilinear' else 'area'
+    return 'bil' if case['mode'] == 'bilinear' else 'nn' if case['mode'] == 'nearest_neighbor' else 'area'
+
+
+def sector_sum_beyond_dtype(sma, case, t):
+    """Input-only: integer image, and a sector of the isophote at ``sma`` holding the fallback threshold of 7 pixels at
+    the isophote's intensity sums to more than the dtype can hold (a running sum kept in the pixel dtype would wrap)."""
+    dt = case.get('dtype', 'f8')
+    return dt in INT_MAX and 7 * t['amp'] * float(radial(case['law'], sma, case['size'])) > INT_MAX[dt]
+
+
+def compare_representation(acc, case, m, ref):
+    """Clause 'representation': fit of the image in the case's dtype vs fit of the same stored values as float64."""
+    kind = dtype_kind(case)
+    vcase = dict(case, kind='fit')
+    site = f'{case["mode"]}:{kind}'
+    rtol = REPR_RTOL[kind]
+    if ref['exc'] or m['exc']:
+        if bool(ref['exc']) != bool(m['exc']):
+            acc.violation('representation', site + ':raises', vcase, m['exc'] or 'an IsophoteList',
+                          ref['exc'] or 'an IsophoteList (float64 image of the same values)')
+        return
+    a, b = m['rows'], ref['rows']
+    acc.counters['fits_compared_with_float64_twin'] += 1
+    if len(a) != len(b) or any(abs(x['sma'] - y['sma']) > SMA_RTOL * max(y['sma'], 1.0) for x, y in zip(a, b)):
+        acc.violation('representation', site + ':sma-list', vcase, [round(r['sma'], 4) for r in a],
+                      [round(r['sma'], 4) for r in b], f'dtype {case["dtype"]} vs float64 image of the same stored values')
+        return
+    worst = None
+    errkey = {'x0': 'x0_err', 'y0': 'y0_err', 'eps': 'eps_err', 'pa': 'pa_err', 'intens': 'int_err'}
+    for x, y in zip(a, b):
+        for p in ('x0', 'y0', 'eps', 'pa', 'intens'):
+            d = abs(x[p] - y[p]) / max(abs(y[p]), 1.0)
+            # float32 pixels: the fitter returns the iterate with the smallest largest-harmonic amplitude; on a noise-free
+            # image the last iterates are equally good to ~1e-6 and a 1e-7 perturbation of the samples can select another
+            # one.  Both are converged solutions of the same isophote, a fraction of the reported error apart: accept
+            # the property's own bound, 3 x the twin's reported error (measured maximum on the pinned tree: 0.45 x)
+            ok = d <= rtol or (kind == 'float32' and abs(x[p] - y[p]) <= 3.0 * abs(y[errkey[p]]))
+            if not ok and (worst is None or not d <= worst[0]):
+                worst = (d, p, x, y)
+    acc.counters['isophotes_compared_with_float64_twin'] += len(a)
+    if worst:
+        d, p, x, y = worst
+        acc.violation('representation', site, vcase, f'{p} = {x[p]!r} at sma {x["sma"]:.4f} (stop_code {x["stop"]})',
+                      f'{y[p]!r} (stop_code {y["stop"]}) within {rtol:g} relative',
+                      f'image dtype {case["dtype"]} vs the same stored values as float64; difference / max(|value|, 1) = {d:.3g}')
 
 
 def fixed_set(case):
@@ -662,8 +801,11 @@ def judge(acc, case, m, seed):
     vcase = dict(case, kind='fit')
     fat = fixed_at_truth(case)
     cls = integr_class(case)
+    kind = dtype_kind(case)
+    ksuf = '' if kind == 'float64' else ':' + kind + '-image'
     sample = vcase if ((case['pa_deg'] == 120 and case['eps'] == 0.8)
-                       or (case.get('sma0') == 14.0 and case.get('geomsma') == 18.0)) else None
+                       or (case.get('sma0') == 14.0 and case.get('geomsma') == 18.0)
+                       or (case.get('dtype') == 'u2' and case['pa_deg'] == 30 and case['eps'] == 0.2)) else None
     if m['exc']:
         acc.case(nontrivial=False, sample=sample)
         acc.violation('raises', 'fit_image:' + m['exc'].split('(')[0], vcase, m['exc'], 'an IsophoteList')
@@ -676,7 +818,7 @@ def judge(acc, case, m, seed):
         if not fat:
             acc.skip('empty list while a fixed parameter is held away from the truth (outside the basin of convergence)')
         else:
-            acc.violation('empty-list', f'{cls}:fix={case["fix"]}', vcase, 'IsophoteList([])',
+            acc.violation('empty-list', f'{cls}:fix={case["fix"]}{ksuf}', vcase, 'IsophoteList([])',
                           'isophotes for an initial geometry inside the basin of convergence')
         return
     sma = [r['sma'] for r in rows]
@@ -727,7 +869,7 @@ def judge(acc, case, m, seed):
             break
     # -- accuracy on the well-sampled isophotes ---------------------------------
     ws = [r for r in rows if r['sma'] > 0 and well_sampled(r['sma'], case, t)]
-    njudged = nai = 0
+    njudged = nai = nwrap = 0
     if not fat:
         acc.skip('accuracy/model not judged: a fixed parameter is held away from the truth')
     else:
@@ -738,6 +880,7 @@ def judge(acc, case, m, seed):
             # class of the isophote (input-only rule): area-integrated isophotes have their own calibration
             ai = area_integrated(r['sma'], case, t) and (case['eps'], case['mode'], case['cen']) in TOL_AI
             nai += ai
+            nwrap += bool(ai and sector_sum_beyond_dtype(r['sma'], case, t))
             tol = TOL_AI[(case['eps'], case['mode'], case['cen'])] if ai else TOL[(case['eps'], cls)]
             icls = 'area-integrated' if ai else cls
             for p in d:
@@ -752,11 +895,16 @@ def judge(acc, case, m, seed):
                           f'x0={r["x0"]:.4f} y0={r["y0"]:.4f} eps={r["eps"]:.4f} pa={r["pa"]:.4f} intens={r["intens"]:.5g}; '
                           f'truth x0={t["x0"]:.4f} y0={t["y0"]:.4f} eps={t["eps"]} pa={t["pa"]:.4f}')
     # a fit of the large frame exists for the area integrators: non-trivial only when such isophotes were judged
-    acc.case(nontrivial=(nai > 0) if case.get('frame', 'std') == 'large' else (njudged > 0),
+    # (an integer image there: only when the sectors of such an isophote sum to more than the dtype holds)
+    acc.case(nontrivial=((nwrap > 0) if kind == 'integer' else (nai > 0))
+             if (case.get('frame', 'std') == 'large' and case['mode'] in AREA_MODE) else (njudged > 0),
              sample=sample or (vcase if (case.get('frame') == 'large' and case['pa_deg'] == 120 and case['size'] == 2.5) else None))
     acc.counters['isophotes_returned'] += len(rows)
     acc.counters['isophotes_judged'] += njudged
     acc.counters['isophotes_judged_area_integrated'] += nai
+    acc.counters['isophotes_judged_area_integrated_sector_sum_beyond_integer_dtype'] += nwrap
+    if kind != 'float64':
+        acc.counters['fits_of_' + kind + '_images'] += 1
     if nai:
         acc.counters['fits_with_area_integrated_isophotes'] += 1
     # -- model -------------------------------------------------------------------
@@ -896,8 +1044,13 @@ def run_case(acc, case, seed):
     if why:
         acc.skip(why)
         return False
-    m = evaluate(case, seed)
+    native = dtype_kind(case) == 'float64'
+    # build_ellipse_model takes the isophote list only: judged for float64 images (the lists of the other dtypes are
+    # compared with their float64 twin) and the three integration modes it was calibrated for
+    m = evaluate(case, seed, with_model=native and case['mode'] != 'nearest_neighbor')
     judge(acc, case, m, seed)
+    if not native:
+        compare_representation(acc, case, m, evaluate(case, seed, with_model=False, as_float64=True))
     if case.get('sma0') is not None:
         acc.counters['fits_with_sma0_keyword'] += 1
         if geometry_sma(case) != start_sma(case):
@@ -947,6 +1100,12 @@ def describe(tier, seed):
                              'growth mode given via': GROWVIA,
                              'lattice points not run (start violates the documented precondition of sma0)':
                                  sum(1 for _, c in enumerate_cases(tier) if admissible(c, truth_geometry(c, seed)))},
+                         'image dtype (block dtype)': {
+                             'dtypes': DTYPE if tier == 'thorough' else DTYPE[:7], 'integrmode': MODE_ALL,
+                             'integer images: peak count (= 0.9 x largest value of the dtype)':
+                                 {k: COUNT_FILL * v for k, v in INT_MAX.items()},
+                             'reference': 'fit of the same stored values as native float64',
+                             'relative tolerance of the clause representation': REPR_RTOL},
                          'init': {'truth': 'exact', 'shape': 'eps-0.1 (eps+0.1 at eps=0.05) and PA+6deg',
                                   'centre': 'x+1.0, y-0.7', 'eps': 'eps-0.1 only'},
                          'to_polar': {'centres': TP_CENTRES, 'pa': TP_PA, 'window': '9x9 integer points',
